@@ -198,7 +198,8 @@ def native_mbx_send(name, conc, notes):
                     b = struct.pack(f, *[a for a in args if not isinstance(a, str)])
                     b += bytes(data) if isinstance(data, int) else (data or b"")
                     if state["full"]:
-                        return ()
+                        from ebpfcat.ethercat import EtherCatError
+                        raise EtherCatError("datagram was not processed")      # working counter 0
                     o = offset - 0x1000
                     mem[o:o + len(b)] = b
                     state["full"] = o <= sz - 1 < o + len(b)
@@ -253,7 +254,8 @@ def run(tier, seed):
         api.REGISTRY.clear()
         api.REGISTRY.update(saved)
     rep.assume("send mailbox = memory of sync manager 0: the terminal takes the mail when the mailbox's last byte is "
-               "written; writes to a full mailbox are ignored; the mailbox is empty when mbx_send starts")
+               "written; a write to a full mailbox is rejected (working counter 0, EtherCatError); the mailbox is empty "
+               "when mbx_send starts")
     rep.assume("receive mailbox = memory of sync manager 1, handed back when its last byte is read; a mail fits its "
                "mailbox (ETG.1000.4)")
     S.install()
